@@ -731,6 +731,12 @@ void bhkRagdollTemplateData::Sync(NiStreamReversible& stream) {
 	constraints.Sync(stream);
 }
 
+void bhkRagdollTemplateData::GetPtrs(std::set<NiPtr*>& ptrs) {
+	NiObject::GetPtrs(ptrs);
+
+	constraints.GetPtrs(ptrs);
+}
+
 void bhkRagdollTemplateData::GetStringRefs(std::vector<NiStringRef*>& refs) {
 	NiObject::GetStringRefs(refs);
 
